@@ -734,12 +734,14 @@ func (c *rawClient) line(in CIn) []byte {
 				cred = base64.StdEncoding.EncodeToString([]byte(cred))
 			}
 		}
-		switch s.Scheme {
-		case "plain":
+		switch {
+		case *s.Cred == 9999:
+			m["authentication"] = map[string]string{}
+		case s.Scheme == "plain":
 			m["authentication"] = map[string]string{"password": cred}
-		case "key":
+		case s.Scheme == "key":
 			m["authentication"] = map[string]string{"key": cred}
-		case "external":
+		case s.Scheme == "external":
 			m["authentication"] = map[string]string{"token": cred, "issuer": "iss"}
 		default:
 			m["authentication"] = map[string]string{}
